@@ -161,75 +161,89 @@ func (q *c19eq) mapEq(r *c19run, fo *types.Func) {
 			"the snapshot comparison has no loop over the entries of a snapshot: a change of a value (or a replaced key with the same count) is not detected, the new content is never delivered")
 		return
 	}
-	if len(loops) > 1 {
-		c.Undecide("R-C19-4", cons+"|snapshot comparison", pos(c, loops[1]), "more than one loop over a snapshot: shape not supported")
-		return
-	}
-	L := loops[0]
-	other := ps[2-isParam(L.X)]
-	kObj, vObj := c19obj(f, L.Key), c19obj(f, L.Value)
-	if kObj == nil {
-		c.Undecide("R-C19-4", cons+"|values compared for every key", pos(c, L), "the per-key loop does not bind the key")
-		return
-	}
-	ranged := ps[isParam(L.X)-1]
-	// entries of the other snapshot under the same key
-	isOtherAtKey := func(e ast.Expr) bool {
-		ix, ok := ast.Unparen(e).(*ast.IndexExpr)
-		return ok && c19obj(f, ix.X) == types.Object(other) && c19obj(f, ix.Index) == kObj
-	}
-	wObjs := map[types.Object]bool{}
-	c19inspect(L.Body, func(n ast.Node) bool {
-		if as, ok := n.(*ast.AssignStmt); ok && len(as.Rhs) == 1 && len(as.Lhs) >= 1 && isOtherAtKey(as.Rhs[0]) {
-			if o := c19obj(f, as.Lhs[0]); o != nil {
-				wObjs[o] = true
+	// Several loops over a snapshot (e.g. a key-existence loop followed by a value loop) are fine:
+	// each may only leave early with false, and one of them must compare the values of every key.
+	wantFor := func(L *ast.RangeStmt) (want []string, undecided string) {
+		other := ps[2-isParam(L.X)]
+		kObj, vObj := c19obj(f, L.Key), c19obj(f, L.Value)
+		if kObj == nil {
+			return nil, "the per-key loop does not bind the key"
+		}
+		ranged := ps[isParam(L.X)-1]
+		// entries of the other snapshot under the same key
+		isOtherAtKey := func(e ast.Expr) bool {
+			ix, ok := ast.Unparen(e).(*ast.IndexExpr)
+			return ok && c19obj(f, ix.X) == types.Object(other) && c19obj(f, ix.Index) == kObj
+		}
+		wObjs := map[types.Object]bool{}
+		c19inspect(L.Body, func(n ast.Node) bool {
+			if as, ok := n.(*ast.AssignStmt); ok && len(as.Rhs) == 1 && len(as.Lhs) >= 1 && isOtherAtKey(as.Rhs[0]) {
+				if o := c19obj(f, as.Lhs[0]); o != nil {
+					wObjs[o] = true
+				}
+			}
+			return true
+		})
+		vObjs := map[types.Object]bool{}
+		if vObj != nil {
+			vObjs[vObj] = true
+		}
+		isRangedAtKey := func(e ast.Expr) bool {
+			ix, ok := ast.Unparen(e).(*ast.IndexExpr)
+			return ok && c19obj(f, ix.X) == types.Object(ranged) && c19obj(f, ix.Index) == kObj
+		}
+		c19inspect(L.Body, func(n ast.Node) bool {
+			if as, ok := n.(*ast.AssignStmt); ok && len(as.Rhs) == 1 && len(as.Lhs) >= 1 && isRangedAtKey(as.Rhs[0]) {
+				if o := c19obj(f, as.Lhs[0]); o != nil {
+					vObjs[o] = true
+				}
+			}
+			return true
+		})
+		isV := func(e ast.Expr) bool {
+			if o := c19obj(f, e); o != nil && vObjs[o] {
+				return true
+			}
+			return isRangedAtKey(e)
+		}
+		isW := func(e ast.Expr) bool {
+			if o := c19obj(f, e); o != nil && wObjs[o] {
+				return true
+			}
+			return isOtherAtKey(e)
+		}
+		want = c19valueAtoms(f, L.Body, isV, isW)
+		for _, call := range calls(L.Body, false) {
+			if len(call.Args) != 2 || !c19isBool(f.Info.TypeOf(call)) {
+				continue
+			}
+			if !((isV(call.Args[0]) && isW(call.Args[1])) || (isV(call.Args[1]) && isW(call.Args[0]))) {
+				continue
+			}
+			g, ok := f.Callee(call).(*types.Func)
+			if !ok {
+				continue
+			}
+			if q.kvEq(g) {
+				want = append(want, f.CallKey(call))
 			}
 		}
-		return true
-	})
-	vObjs := map[types.Object]bool{}
-	if vObj != nil {
-		vObjs[vObj] = true
+		return want, ""
 	}
-	isRangedAtKey := func(e ast.Expr) bool {
-		ix, ok := ast.Unparen(e).(*ast.IndexExpr)
-		return ok && c19obj(f, ix.X) == types.Object(ranged) && c19obj(f, ix.Index) == kObj
+	var L *ast.RangeStmt
+	var want []string
+	for _, cand := range loops {
+		w, und := wantFor(cand)
+		if und != "" {
+			c.Undecide("R-C19-4", cons+"|values compared for every key", pos(c, cand), und)
+			return
+		}
+		if len(w) > 0 && L == nil {
+			L, want = cand, w
+		}
 	}
-	c19inspect(L.Body, func(n ast.Node) bool {
-		if as, ok := n.(*ast.AssignStmt); ok && len(as.Rhs) == 1 && len(as.Lhs) >= 1 && isRangedAtKey(as.Rhs[0]) {
-			if o := c19obj(f, as.Lhs[0]); o != nil {
-				vObjs[o] = true
-			}
-		}
-		return true
-	})
-	isV := func(e ast.Expr) bool {
-		if o := c19obj(f, e); o != nil && vObjs[o] {
-			return true
-		}
-		return isRangedAtKey(e)
-	}
-	isW := func(e ast.Expr) bool {
-		if o := c19obj(f, e); o != nil && wObjs[o] {
-			return true
-		}
-		return isOtherAtKey(e)
-	}
-	want := c19valueAtoms(f, L.Body, isV, isW)
-	for _, call := range calls(L.Body, false) {
-		if len(call.Args) != 2 || !c19isBool(f.Info.TypeOf(call)) {
-			continue
-		}
-		if !((isV(call.Args[0]) && isW(call.Args[1])) || (isV(call.Args[1]) && isW(call.Args[0]))) {
-			continue
-		}
-		g, ok := f.Callee(call).(*types.Func)
-		if !ok {
-			continue
-		}
-		if q.kvEq(g) {
-			want = append(want, f.CallKey(call))
-		}
+	if L == nil {
+		L = loops[0]
 	}
 	if len(want) == 0 {
 		c.Violate("R-C19-4", cons+"|values compared for every key", pos(c, L),
@@ -315,7 +329,11 @@ func (q *c19eq) mapEq(r *c19run, fo *types.Func) {
 			"the comparison can report 'equal' although the lengths differ: a created or deleted key is not detected and never delivered", witness(badLen)...)
 	}
 	var badBreak ast.Node
-	for _, x := range breaksOut(f, L, labelOf(f.Body, L)) {
+	var outs []ast.Node
+	for _, lp := range loops {
+		outs = append(outs, breaksOut(f, lp, labelOf(f.Body, lp))...)
+	}
+	for _, x := range outs {
 		okx := false
 		if rs, ok := x.(*ast.ReturnStmt); ok && len(rs.Results) == 1 {
 			if v, isC := c19constBool(f, rs.Results[0]); isC && !v {
